@@ -702,7 +702,11 @@ CancelDeliver(r) ==
    release is abandoned; on the normal close path (PoolByteStream.aclose, no exception being
    unwound) the exception leaves aclose before the request is removed from the queue. *)
 NativeCancelInShield(r) ==
-  /\ Dev("NativeCancelInShield") /\ creq[r] = "native" /\ pc[r] = "rel"
+  /\ Dev("NativeCancelInShield") /\ creq[r] = "native"
+  \* (also right AFTER the connection-level release, when that release closed the connection: closing a
+  \*  stream is a checkpoint - the exception leaves PoolByteStream.aclose before the request is removed)
+  /\ \/ pc[r] = "rel"
+     \/ pc[r] = "leave" /\ exc[r] = "none" /\ asg[r] # None /\ cst[asg[r]] = "closed"
   /\ pc' = [pc EXCEPT ![r] = IF exc[r] = "none" THEN "cancelled" ELSE "leave"]
   /\ exc' = [exc EXCEPT ![r] = "cancel"]
   /\ creq' = [creq EXCEPT ![r] = "no"]
